@@ -1162,6 +1162,12 @@ class World:
         obs.step_from = self.sched.step
         obs.val_from = len(self.validator_calls)
         obs.store_versions = {r: self.store.current_version(r) for r in self.store.versions}
+        obs.cfg_allow_pre = None
+        if self.cache is not None and kind == "GET":
+            try:
+                obs.cfg_allow_pre = bool(self.cache.config.allow_for_missing_files)
+            except Exception:
+                obs.cfg_allow_pre = None
         crashed = False
         try:
             self.in_dispatch = True
@@ -1408,6 +1414,28 @@ class World:
                     with open(p, "wt") as f:
                         f.write(_json.dumps(cfg, indent=4))
                     obs.result = op["size"]
+        elif kind == "SETCFG":
+            # the caller changes a setting of the running cache through the public properties of its
+            # configuration object (each setter also persists the configuration)
+            obs.result = None
+            if self.cache is not None:
+                cfg = self.cache.config
+                if op["attr"] == "allow":
+                    cfg.allow_for_missing_files = bool(op["value"])
+                    obs.result = ("allow", bool(op["value"]))
+                elif op["attr"] == "parallel":
+                    # 'the other download mode': the two executions of one C18 history stay opposite
+                    new = not bool(cfg.parallel)
+                    cfg.parallel = new
+                    obs.result = ("parallel", new)
+                elif op["attr"] == "grow":
+                    # enlarging the limit (shrinking it under the contents mid-session is not part of the properties)
+                    new = int(cfg.max_size_bytes) + int(op["by"])
+                    if op.get("via") == "gb":
+                        cfg.max_size = new / 1e9
+                    else:
+                        cfg.max_size_bytes = new
+                    obs.result = ("grow", new)
         elif kind == "RES_UPDATE":
             self.store.update(op["res"], op.get("size"))
             self.sync_remote_files()
